@@ -754,6 +754,7 @@ def _correspondence(ctx):
         for item, detail in fails:
             ctx.pred_fail(item, case, detail)
         if z is None:
+            ctx.disagree('synth_model', case, 'render raised / returned a wrong shape', 'model returns the rescaled surface')
             continue
         try:
             _, _, z0, _ = _render(case, None)        # same random draw, no normalisation
@@ -830,13 +831,31 @@ def _first_fail(case):
 
 
 def search(ctx, hints):
-    """property predicates on the real code, smallest shapes first; then seeded random"""
+    """property predicates on the real code: corpus first, then smallest shapes first, then seeded random"""
     with warnings.catch_warnings(), np.errstate(all='ignore'):
         warnings.simplefilter('ignore')
         return _search(ctx, hints)
 
 
+def _corpus():
+    import glob
+    import json
+    import os
+    out = []
+    for path in sorted(glob.glob(os.path.join(C.VERIF, 'corpus', 'C13', '*.json'))):
+        try:
+            out.append(json.load(open(path))['input'])
+        except Exception:
+            pass
+    return out
+
+
 def _search(ctx, hints):
+    # 0. corpus of minimised past failures
+    for case in _corpus():
+        f = _first_fail(case)
+        if f:
+            return f
     shapes = sorted(itertools.product(range(1, 8), repeat=2), key=lambda s: (s[0] * s[1], s[0] + s[1], s))
     # 1. the integrator must exist under both configurations
     for cfg in CONFIGS:
